@@ -31,6 +31,21 @@ def inline_cursor(f, callee, t):
         return True     # block_end(), block_start(), top(), capacity ...
     if callee.short in ('top',) and len(callee.blocks) <= 4:
         return True
+    if callee.cls == f.cls and callee.rec.get('nonpublic') and callee.key != f.key and len(callee.blocks) <= 24:
+        return True     # a private helper of the same class is part of its callers' paths
+    return False
+
+
+def only_through_callers(f, fns):
+    """a non-public member function that another candidate of the same class calls is decided on its callers' paths (where it is inlined),
+    with the arguments they actually pass, not on its own"""
+    if not f.rec.get('nonpublic'):
+        return False
+    for g in fns:
+        if g.key != f.key and g.cls == f.cls:
+            for e, t in flow.call_events(g):
+                if t.get('key') == f.key:
+                    return True
     return False
 
 
@@ -68,6 +83,8 @@ def check_bound(run, db, fns=None, rule='R-BOUND', end_pred=None, site_fn=None):
     fns = bound_candidates(db) if fns is None else fns
     n = 0
     for f in fns:
+        if only_through_callers(f, fns):
+            continue
         try:
             S = fwd.summarize(f, db=db, inline_pred=inline_cursor, extra_forward=lambda a, b: None, roles={})
         except sym.PathLimit as e:
@@ -381,18 +398,38 @@ def check_pre(run, db):
             inst = '%s -> %s [%s]' % (f.display, strip_ns(t.get('callee', 'insert')), db.config)
             sn = site_name(f)
             size_arg = sym.canon(t['args'][1])
-            # dominating comparison against the list's minimum (min_block_size / node_size)
+            # every path to the call has decided `size argument >= M` with M made of the list's minimum (min_block_size / node_size):
+            # by value and polarity of the comparison, whichever way round and on whichever edge it is written
             guarded = False
-            for b in f.blocks.values():
-                term = b.get('term')
-                if not term or not isinstance(term.get('cond'), dict):
-                    continue
-                cc = sym.canon(term['cond'])
-                if ('min_block_size' in cc or 'node_size' in cc) and f.blocks[e.block] is not b:
-                    # the true edge must dominate the call
-                    dom = f.dominators()
-                    if b['succ'] and b['succ'][0] in dom.get(e.block, set()):
-                        guarded = True
+            try:
+                reach = 0
+                good = 0
+                for steps in fwd.trace(f, roles={}, db=db):
+                    pre = []
+                    hit = None
+                    for st in steps:
+                        if st['kind'] == 'br':
+                            pre.append((st['cond'], st['taken']))
+                        elif st['kind'] == 'ev' and isinstance(st.get('t'), dict) and st['t'].get('id') == t.get('id') and st['t'].get('short') == 'insert':
+                            hit = st['t']
+                            break
+                    if hit is None:
+                        continue
+                    reach += 1
+                    size_lin = linear.lin(hit['args'][1], {})
+                    okp = False
+                    for ct, tk in pre:
+                        for a, tka in fwd.split_condition(ct, tk):
+                            c = linear.compare(a, tka, {})
+                            if not c or c[1] not in ('<', '<='):
+                                continue
+                            m = linear._add(c[0], size_lin, 1)         # d = M - size  =>  d + size = M
+                            if m and all(v > 0 and ('min_block_size' in k or 'node_size' in k) for k, v in m.items()):
+                                okp = True
+                    good += okp
+                guarded = reach > 0 and good == reach
+            except sym.PathLimit:
+                pass
             # by effect: a whole block as the arena / the collection's reserve routine returned it (B.memory, B.size), or the
             # caller's own (pointer, size) parameters passed on unchanged (the obligation travels to the caller)
             whole = False
